@@ -54,7 +54,25 @@ func emitSeg(e *Emitter, a, b, c, d geom.Coord) {
 	e.emitR("C12.seg", in, func() string {
 		if !done {
 			cp := func(x geom.Coord) geom.Coord { return append(geom.Coord{}, x...) }
-			res = lineintersector.LineIntersectsLine(robustStrategy(), cp(a), cp(b), cp(c), cp(d))
+			a1, b1, c1, d1 := cp(a), cp(b), cp(c), cp(d)
+			// consecutive segments of one line share a vertex: the very same storage is then passed for
+			// the end of one and the start of the other (ls.Coord(i) twice), not two equal copies
+			same := func(x, y geom.Coord) bool {
+				return len(x) == len(y) && math.Float64bits(x[0]) == math.Float64bits(y[0]) && math.Float64bits(x[1]) == math.Float64bits(y[1])
+			}
+			if strategyForm%2 == 0 {
+				switch {
+				case same(b, c):
+					c1 = b1
+				case same(a, d):
+					d1 = a1
+				case same(a, c):
+					c1 = a1
+				case same(b, d):
+					d1 = b1
+				}
+			}
+			res = lineintersector.LineIntersectsLine(robustStrategy(), a1, b1, c1, d1)
 			nr = lineintersector.LineIntersectsLine(nonRobustStrategy(), cp(a), cp(b), cp(c), cp(d))
 			done = true
 		}
